@@ -28,6 +28,17 @@ CHECKS["C16"] = dict(
    note="Trusted: vf/sem.py to decide whether an object depends on an unsolved leaf; solver status reporting. MOSEK-path unbounded behaviour not judged.",
    design="DESIGN.md §3 C16")
 
+CHECKS["C05"] = dict(
+   technique="property-based testing (Hypothesis): differential translation check on generated expressions; generated instruction soups run in build-only mode through a recording cvxpy wrapper and a recording stand-in MOSEK task, compared as multisets of affine functions with the interpreter's own ledger of declarations",
+   text="Generated-input search: (1) dense and sparse translations of random expressions (mirrored / repeated keys, constants) are evaluated at random symmetric G and F and compared with an independent evaluation; (2) random legal programs over all classes, steps, constraint sources, LMIs and partitions are sent through PEP.solve with the numerical solve stubbed out, and what reached the cvxpy problem / the MOSEK task is compared, as a multiset with senses, with what the program declared (object identity and affine function at random points).",
+   note="Trusted: vf/sem.py, cvxpy .value evaluation, the stand-in mosek Task semantics (appendsparsesymmat / putbaraij / bounds as documented). Real MOSEK is not installed.",
+   design="DESIGN.md §3 C05")
+CHECKS["C13"] = dict(
+   technique="property-based testing (Hypothesis): generated solve/edit/evaluate histories on one PEP object (stateful, model-based): each solve is compared with a newly built equivalent model and with an independent evaluation of all held objects",
+   text="Generated histories of edits (replace/drop/restore initial condition, add/assign metrics, add constraints and LMIs), solves with changing options and evaluations of user-held objects; after each solve: value equals that of a model rebuilt from scratch, held objects evaluate to the current leaf values (which reproduce the latest Gram matrix), nothing evaluates after a solve returning None, certificate valid for the latest solve, no stale multipliers, data sent equals that of the rebuilt model.",
+   note="Trusted: vf/sem.py, CLARABEL/SCS, and that PEP() starts a fresh model (C12). Back-end changes between solves are limited to the cvxpy solvers here; MOSEK is covered in C11.",
+   design="DESIGN.md §3 C13")
+
 NOT_APPLICABLE = []
 
 def main():
